@@ -114,6 +114,22 @@ func genWorkload(seed int64, nblocks int) []block {
 				locks++
 			}
 		}
+		if b == 0 {
+			// Scripted start (consumes no randomness).  All gauge ids of one status live in ONE reference list and
+			// a finishing gauge is removed by moving the LAST id into its slot, so from the first finished gauge
+			// on the stored order is not the id order; an epoch's distribution walks the gauges in stored order and
+			// pays the reward receivers in the order it first meets them (hence its events).  Gauge 1 (first in the
+			// list of its start time, one epoch) finishes first and gauge 4 takes its slot: [4 2 3], later [4 2] for
+			// 30 epochs.  Gauge 2 pays user 3 alone (the only "atom" lock), gauge 4 meets user 0 first (the shortest
+			// "uion" and "eth" locks are user 0's).  An export/import that re-orders the list therefore shows as
+			// different block events on the importer at every later distribution.
+			bl.Ops = append(bl.Ops,
+				op{K: "lockX", U: 0, D: 1, A: int64(5000 + b), B: 8}, op{K: "lockX", U: 0, D: 2, A: int64(7000 + b), B: 8},
+				op{K: "lockX", U: nUsers - 1, D: 4, A: 9000, B: 30},
+				op{K: "gaugeX", U: 1, D: 1, A: 1, B: 1, C: 0}, op{K: "gaugeX", U: 2, D: 4, A: 2, B: 30, C: 1},
+				op{K: "gaugeX", U: 0, D: 2, A: 3, B: 2, C: 2}, op{K: "gaugeX", U: 1, D: 1, A: 4, B: 30, C: 0})
+			locks += 3
+		}
 		for i := 0; i < n; i++ {
 			o := op{U: rng.Intn(nUsers), V: rng.Intn(nUsers), D: rng.Intn(len(denoms)), E: rng.Intn(len(denoms)),
 				A: int64(1 + rng.Intn(1000000)), B: int64(1 + rng.Intn(1000)), C: int64(rng.Intn(1000))}
@@ -146,7 +162,7 @@ func genWorkload(seed int64, nblocks int) []block {
 				locks++
 			case r < 27 && locks > 0:
 				o.K = "beginUnlock"
-				o.C = int64(1 + rng.Intn(locks+1))
+				o.C = int64(4 + rng.Intn(locks)) // never the three scripted locks of block 0
 			case r < 31:
 				o.K = "createBalancer"
 				pools = append(pools, poolT{false, o.D, o.E})
@@ -213,7 +229,7 @@ func TestGenesis(t *testing.T) {
 	if out == "" {
 		t.Skip("VERIF_GENESIS not set")
 	}
-	dir := t.TempDir()
+	dir := scratchDir(t)
 	a := app.NewOsmosisApp(log.NewNopLogger(), cosmosdb.NewMemDB(), nil, true, map[int64]bool{}, dir, 0,
 		sims.EmptyAppOptions{}, app.EmptyWasmOpts, baseapp.SetChainID(chainID))
 	gs := app.GenesisStateWithValSet(a)
@@ -259,7 +275,7 @@ func newNode(t *testing.T, appState []byte, initialHeight int64, vals []abci.Val
 	}()
 	n := &node{}
 	n.SetT(t)
-	dir := t.TempDir()
+	dir := scratchDir(t)
 	// crisis sits before most osmosis modules in the InitGenesis order, so its genesis-time
 	// invariant run sees half-initialised state; nodes start with the skip flag (as here)
 	n.App = app.NewOsmosisApp(log.NewNopLogger(), cosmosdb.NewMemDB(), nil, true, map[int64]bool{}, dir, 0,
@@ -348,6 +364,13 @@ func (n *node) msgOf(o op) sdk.Msg {
 	case "lock":
 		d = denoms[1+(o.D%4)/3] // mostly one denom: many distinct durations on it
 		return lockuptypes.NewMsgLockTokens(u, time.Duration(8+o.B%25)*time.Hour, sdk.NewCoins(sdk.NewCoin(d, osmomath.NewInt(o.A))))
+	case "lockX": // explicit denom index D and duration B hours
+		return lockuptypes.NewMsgLockTokens(u, time.Duration(o.B)*time.Hour, sdk.NewCoins(sdk.NewCoin(denoms[o.D], osmomath.NewInt(o.A))))
+	case "gaugeX": // explicit denom index D, epochs B, duration index C
+		return &incentivestypes.MsgCreateGauge{IsPerpetual: false, Owner: u.String(),
+			DistributeTo: lockuptypes.QueryCondition{LockQueryType: lockuptypes.ByDuration, Denom: denoms[o.D], Duration: []time.Duration{time.Hour, 3 * time.Hour, 7 * time.Hour}[o.C%3]},
+			Coins:        sdk.NewCoins(sdk.NewCoin("uosmo", osmomath.NewInt(3_000_000_000+o.A*1000))), StartTime: n.Ctx.BlockTime(),
+			NumEpochsPaidOver: uint64(o.B)}
 	case "beginUnlock":
 		return lockuptypes.NewMsgBeginUnlocking(u, uint64(o.C), nil)
 	case "createBalancer":
@@ -399,6 +422,24 @@ func (n *node) msgOf(o op) sdk.Msg {
 	panic("unknown op " + o.K)
 }
 
+// scratchDir: like t.TempDir, but the removal is best effort: the app keeps background writers (wasm cache,
+// snapshot stores) in its home directory, and t.TempDir fails the test when its RemoveAll races with them.
+func scratchDir(t *testing.T) string {
+	dir, err := os.MkdirTemp("", "verif-replica-")
+	if err != nil {
+		t.Fatal(err)
+	}
+	t.Cleanup(func() {
+		for i := 0; i < 5; i++ {
+			if os.RemoveAll(dir) == nil {
+				return
+			}
+			time.Sleep(100 * time.Millisecond)
+		}
+	})
+	return dir
+}
+
 // endBlock finalizes and commits the current block, then opens the next one dt later.
 func (n *node) endBlock(dt time.Duration) (appHash, evHash string) {
 	resp, err := n.App.FinalizeBlock(&abci.RequestFinalizeBlock{Height: n.Ctx.BlockHeight(), Time: n.Ctx.BlockTime()})
@@ -410,6 +451,18 @@ func (n *node) endBlock(dt time.Duration) (appHash, evHash string) {
 	}
 	appHash = hex.EncodeToString(n.App.LastCommitID().Hash)
 	evHash = hashOf(eventsBytes(resp.Events))
+	if os.Getenv("VERIF_DEBUG_EVENTS") != "" {
+		ids := []uint64{}
+		for _, g := range n.App.IncentivesKeeper.GetActiveGauges(n.Ctx) {
+			ids = append(ids, g.Id)
+		}
+		fmt.Printf("DEBUGEV h=%d active=%v\n", n.Ctx.BlockHeight(), ids)
+		for _, e := range resp.Events {
+			if e.Type == "distribution" {
+				fmt.Printf("DEBUGEV h=%d %s %v\n", n.Ctx.BlockHeight(), e.Type, e.Attributes)
+			}
+		}
+	}
 	header := n.Ctx.BlockHeader()
 	header.Time = header.Time.Add(dt)
 	header.Height++
